@@ -15,6 +15,8 @@ pub mod bx;
 pub mod p_c12;
 #[cfg(all(kani, feature = "c14"))]
 pub mod p_c14;
+#[cfg(all(kani, feature = "c18"))]
+pub mod p_c18;
 #[cfg(all(kani, feature = "c19"))]
 pub mod p_c19;
 
